@@ -236,6 +236,21 @@ Record abs_result := {
 
 Definition in_data (l : layout) (b : N) : bool := (l_dstart l <=? b) && (b <? l_size l).
 
+(* ownership against the block bitmap: no block with two owners (EDupBlock), every owned data block marked
+   used (EBitClear), every block marked used owned by somebody (EBitSetUnowned).  Proofs/AbsOwn.v shows that
+   an empty result means exactly that. *)
+Fixpoint dup_errors (xs : list N) (seen : gset N) : list wf_error :=
+  match xs with
+  | [] => []
+  | x :: r => if bool_decide (x ∈ seen) then EDupBlock x :: dup_errors r seen else dup_errors r (gs_add x seen)
+  end.
+Definition own_errors (l : layout) (owned used : list N) : list wf_error :=
+  let ownedset : gset N := gs_of_list owned in
+  let usedset : gset N := gs_of_list used in
+  (if (length owned =? size ownedset)%nat then [] else dup_errors owned ∅) ++
+  omap (fun b => if bool_decide (b ∈ usedset) || negb (in_data l b) then None else Some (EBitClear b)) owned ++
+  omap (fun b => if negb (bool_decide (b ∈ ownedset)) then Some (EBitSetUnowned b) else None) used.
+
 (* abstraction + invariant of a whole image.  [quiescent]: no background freeing is in
    progress, so a free inode owns nothing. *)
 Definition abs_disk (name_max maxfilesize sz : N) (quiescent : bool) (d : disk) : abs_result :=
@@ -249,14 +264,9 @@ Definition abs_disk (name_max maxfilesize sz : N) (quiescent : bool) (d : disk) 
               (seq 0 (N.to_nat (l_dstart l - l_istart l))) ([], []) in
   let owned := w_owned st ++ owned2 in
   let ownedset : gset N := gs_of_list owned in
-  let derr := if (length owned =? size ownedset)%nat then [] else
-              (fix dups (xs : list N) (seen : gset N) : list wf_error :=
-                 match xs with [] => [] | x :: r => if bool_decide (x ∈ seen) then EDupBlock x :: dups r seen
-                                                    else dups r (gs_add x seen) end) owned ∅ in
   let '(used, nset) := set_bits d (l_bbstart l) (l_nbb l) (l_dstart l) sz in
   let usedset : gset N := gs_of_list used in
-  let berr := omap (fun b => if bool_decide (b ∈ usedset) || negb (in_data l b) then None else Some (EBitClear b)) owned in
-  let uerr := omap (fun b => if negb (bool_decide (b ∈ ownedset)) then Some (EBitSetUnowned b) else None) used in
+  let oerr := own_errors l owned used in
   let nused_data := N.of_nat (length used) in
   let fixed_ok := (nset =? nused_data + l_dstart l + (l_nbb l * 32768 - sz)) in
   let zerr := omap (fun p => let b := fst p in
@@ -269,7 +279,7 @@ Definition abs_disk (name_max maxfilesize sz : N) (quiescent : bool) (d : disk) 
               omap (fun p => if bool_decide (fst p ∈ iusedset) then None else Some (EInodeBit (fst p)))
                    (w_objs st) in
   {| r_objs := w_objs st;
-     r_errs := w_errs st ++ errs2 ++ derr ++ berr ++ uerr ++ (if fixed_ok then [] else [EBitmapFixed]) ++ zerr ++ ierr;
+     r_errs := w_errs st ++ errs2 ++ oerr ++ (if fixed_ok then [] else [EBitmapFixed]) ++ zerr ++ ierr;
      r_used_blocks := nused_data;
      r_used_inodes := N.of_nat (length iused) |}.
 
